@@ -32,6 +32,7 @@ def parse(r):
     i = r.index(89, 12)
     d["env"] = r[12:i]
     d["cmr"] = r[i + 1:i + 33]
+    d["pruned_cmr"] = r[i + 34:i + 66] if len(r) > i + 33 and r[i + 33] == 90 else None
     return d
 
 
@@ -62,6 +63,24 @@ def prop_check(c, r):
     bump("kinds rust=%s c=%s" % (cc.EXEC_KIND.get(rk, rk), cc.EXEC_KIND.get(ck, "decode:" + cc.DECODE_CLASS.get(ck - 100, "?") if ck >= 100 else ck)))
     if rk == 9:
         return ("rust-panic", "BitMachine::exec panicked on " + what)
+    sem = c.meta.get("sem")
+    if sem is not None:
+        # the Coq big-step semantics (Core/Sem.v eval with the jets of Jets/JetSpec.v) as third party
+        sk = {0: 0, 6: 12, 7: 12}.get(sem[0], None) if sem[0] != 1 else {1: 1, 2: 3, 3: 2}.get(sem[1], 12)
+        bump("sem3 coq=%s rust=%s c=%s" % (cc.EXEC_KIND.get(sk, sk), cc.EXEC_KIND.get(rk, rk),
+                                            cc.EXEC_KIND.get(ck, "decode:" + cc.DECODE_CLASS.get(ck - 100, "?") if ck >= 100 else ck)))
+        if sk == 12:
+            return ("semantics-stuck", "Core/Sem.v eval is stuck / the program is not a term of the model (%s) on %s" % (sem[:2], what))
+        if rk != 4 and rk != sk:
+            return ("sem-rust", "Coq semantics: %s, Rust: %s (C: %s) on %s"
+                    % (cc.EXEC_KIND.get(sk), cc.EXEC_KIND.get(rk, rk), cc.EXEC_KIND.get(ck, ck), what))
+        if sk == 1 and rk == 1 and d.get("pruned_cmr") is not None and d["pruned_cmr"] != sem[2:34]:
+            return ("sem-rust-assertion", "assertion failure on a different hidden branch: Coq %s, Rust %s on %s"
+                    % (cc.hexs(sem[2:34]), cc.hexs(d["pruned_cmr"]), what))
+        if d["nfail"] == 0 and d["cstage"] == 0 and ck != 4 and ck != sk:
+            return ("sem-c", "Coq semantics: %s, C: %s (raw -%d; Rust: %s) on %s"
+                    % (cc.EXEC_KIND.get(sk), cc.EXEC_KIND.get(ck, ck), d["craw"], cc.EXEC_KIND.get(rk, rk), what))
+        bump("sem3 compared")
     if d["nfail"] > 0:
         bump("fail_node_excluded")
         if d["cstage"] == 0:
@@ -126,7 +145,14 @@ def corpus_cases():
 
 
 def run(rep, tier, rng):
+    import time as _time
     STATS.clear()
+    T = {}
+    _t0 = [_time.time()]
+
+    def lap(name):
+        T[name] = round(_time.time() - _t0[0], 1)
+        _t0[0] = _time.time()
     rep.coverage["explanation"] = (
         "Level 'other': differential comparison, not a proof about either evaluator.  For every generated case "
         "(program of type 1 -> 1 with witness values, transaction environment) the verdict of the Rust Bit Machine "
@@ -135,23 +161,37 @@ def run(rep, tier, rng):
         "(NO_ERROR / EXEC_ASSERT / EXEC_JET / ...) on the serialisation of the same program, with the same marshalled C "
         "environment (ElementsEnv::c_tx_env()).  Cases where C reports EXEC_MEMORY / EXEC_BUDGET (libsimplicity's CELLS_MAX / "
         "BUDGET_MAX) are outside the property and only counted; programs containing a fail node are refused by the C decoder "
-        "and only counted.  The consensus run with all anti-DoS checks is executed too and only tallied.  The Coq contribution "
-        "is limited to the classification through which verdicts are compared (Cdiff/VerdictRef.v: the kind code is injective, "
-        "the Rust error enum maps injectively, exactly one C code maps to each of success / assertion / jet failure); the "
-        "harness tables are compared with that reference on every run.  The C evaluator (TCO machine) and the C jets are not "
-        "modelled; the Rust machine model belongs to C05.  " + cc.CLASS_MAPPING_TEXT)
-    vplib.proof_stage(rep, "Props/C06.v", extra_targets=["Cdiff/Run.vo"], translators=())
+        "and only counted.  The consensus run with all anti-DoS checks is executed too and only tallied.  Coq contributes "
+        "(a) the classification through which verdicts are compared (Cdiff/VerdictRef.v: the kind code is injective, the Rust "
+        "error enum maps injectively, exactly one C code maps to each of success / assertion / jet failure; the harness tables "
+        "are compared with that reference on every run); (b) a THIRD PARTY for programs whose jets are specified in "
+        "Jets/JetSpec.v (306 Core jets; their Elements namesakes are used): the verdict of the big-step semantics Core/Sem.v "
+        "`eval` - success / assertion failure with the hidden CMR / fail node / jet failure - is computed with vm_compute for "
+        "every case of a dedicated population (coverage.three_way_semantics) and compared with both evaluators (three-way; for "
+        "assertion failures also the CMR carried by Rust's ReachedPrunedBranch); (c) theorems pinned in Props/C06.v that "
+        "specialise C05's exec_correct to programs 1 -> 1: the MODEL of the Rust machine returns success iff eval does, returns "
+        "ReachedPrunedBranch(cmr) / ReachedFailNode / JetFailed iff eval fails that way, and has no other outcome once "
+        "for_program accepted the program - for any jet semantics respecting the jets' types, in particular the specified "
+        "jets.  The C evaluator (TCO machine) and the C jets are not modelled: C stays tied by comparison only, and so do the "
+        "introspection / hashing / signature jets, whose outputs only the C code defines (both evaluators call the same C "
+        "functions there).  " + cc.CLASS_MAPPING_TEXT)
+    vplib.proof_stage(rep, "Props/C06.v", extra_targets=["Cdiff/Run.vo", "Cdiff/EvalRef.vo"], translators=("xlate_consts.py",))
     rep.coverage["trusted_base"] = vplib.GENERIC_TRUSTED + [
         "vendored libsimplicity (evaluator and jets) compiled by simplicity-sys's build.rs, and the FFI declaration of evalTCOExpression in simplicity-sys/src/tests/ffi.rs (9 parameters, as in eval.h)",
         "harness_cdiff/src/env.rs: generator of Elements transactions (elements crate types) marshalled by ElementsEnv::new",
         "model Cdiff/VerdictRef.v written by hand from errorCodes.h / bit_machine::ExecutionError",
+        "Core/Sem.v (big-step semantics), Core/Term.v, Core/Typing.v, Core/Machine.v (model of the Rust machine) and Jets/JetSpec.v "
+        "(306 hand-written jet specifications) of the C05 family, imported read-only; final arrows and the CMRs of disconnected "
+        "branches are taken from the implementation (harness `c06 info`) and handed to the semantics as data",
     ]
+    lap("proof_stage_s")
     lim, lerr = cc.read_limits()
     if lerr:
         rep.violation("libsimplicity limits changed: " + lerr, {"limits": lim}, False)
     binary, out = vplib.harness_build("debug", crate=cc.CRATE)
     if binary is None:
         raise vplib.Infra("harness build failed:\n" + out[-3000:])
+    lap("harness_build_s")
     wd = rep.workdir()
     quick = tier == "quick"
     progs, gstats = cc.typed_programs(rng.fork("gen"), binary, wd, 700 if quick else 9000, [1, 2, 2, 3, 3, 4],
@@ -178,8 +218,75 @@ def run(rep, tier, rng):
             cases.append(Case("p%d" % k, "run", "%s %s" % (env, pdl), None,
                               {"features": {"jets": 1}, "expect": expect, "probe": name}))
             k += 1
+    lap("generation_s")
+    # three-way population: programs over the Elements namesakes of the Core jets specified in Jets/JetSpec.v (plus words,
+    # witnesses, assertions, disconnect); the verdict of Core/Sem.v eval is computed in Coq for every one of them
+    sjl, core_ids, snotes = cc.specified_core_jets(binary, wd)
+    if snotes["id_name_mismatch"]:
+        rep.violation("jet ids of Jets/JetSpec.v do not match Core::ALL: %s" % snotes["id_name_mismatch"][:3], {"mismatch": snotes}, False)
+    sprogs, sstats = cc.typed_programs(rng.fork("semgen"), binary, wd, 260 if quick else 4000, [1, 2, 2, 3, 3, 4],
+                                       opts={"hidden": 30, "witness": 22, "disconnect": 20}, jetlist=sjl)
+    r5 = rng.fork("semenv")
+    semcases = []
+    for p, ar, st in sprogs:
+        if len(p) > 120:
+            continue
+        feats = cc.prog_features(p)
+        variants = [p]
+        if feats["wit"] and r5.below(2):
+            variants.append(pg.fill_witnesses(r5, st, ar))
+        for v in variants:
+            semcases.append((v, feats, None, "sem-generated"))
+    for p, expect, desc in cc.disc_templates(rng.fork("disctmpl"), 28 if quick else 400):
+        semcases.append((p, cc.prog_features(p), expect, desc))
+    info = vplib.run_harness(binary, "c06", ["i%d info %s" % (j, pg.prog_pdl(p)) for j, (p, _f, _e, _d) in enumerate(semcases)], workdir=wd)
+    sem_exprs = []
+    sem_case_list = []
+    for j, (p, feats, expect, desc) in enumerate(semcases):
+        inf = cc.parse_info(info.get("i%d" % j))
+        if inf is None:
+            bump("sem_info_failed")
+            continue
+        arrows, cmrs = inf
+        if sum(cc.ty_tree_size(a[0]) + cc.ty_tree_size(a[1]) for a in arrows if a is not None) > 40000:
+            bump("sem_skipped_types_too_large")
+            continue
+        meta = {"features": dict(feats, jets=max(1, feats.get("jets", 0))), "origin": desc}
+        if expect is not None:
+            meta["expect"] = expect
+            meta["probe"] = "disc-width"
+        c = Case("s%d" % k, "run", "%s %s" % (cc.rand_env(r5), pg.prog_pdl(p)), None, meta)
+        k += 1
+        cases.append(c)
+        sem_case_list.append(c)
+        sem_exprs.append(cc.sem_expr(p, arrows, cmrs, core_ids))
+    import time
+    t0 = time.time()
+    # templates first, then the generated programs; evaluated in slices of 16 coqc processes within a time budget
+    order = sorted(range(len(sem_exprs)), key=lambda i: (0 if "expect" in sem_case_list[i].meta else 1, i))
+    svals_o, _retried = cc.ref_eval(cc.SEM_IMPORTS, [sem_exprs[i] for i in order], wd, "c06sem", batch=8 if quick else 24,
+                                    timeout=600, budget_s=45 if quick else 480)
+    n_sem = 0
+    for i, v in zip(order, svals_o):
+        if v is not None:
+            sem_case_list[i].meta["sem"] = v
+            n_sem += 1
+    rep.coverage["three_way_semantics"] = {
+        "cases": n_sem, "cases_generated": len(sem_case_list), "coq_eval_s": round(time.time() - t0, 1), "specified_jets": snotes,
+        "time_budget": "evaluated in slices of 16 coqc processes, no new slice after %d s; cases not evaluated in Coq are still "
+                       "compared Rust vs C" % (45 if quick else 480),
+        "population": "generated well-typed 1->1 programs whose jets are the Elements namesakes (same name and types) of the %d Core jets "
+                      "specified in coq/Jets/JetSpec.v, with words, witnesses (one or two fillings), assertions / hidden branches and "
+                      "disconnect; plus disconnect templates with C and D of different widths whose result is compared with the "
+                      "expected constant (verdict known: success / jet failure).  Every case is evaluated three ways: Core/Sem.v eval "
+                      "(vm_compute), BitMachine::exec, evalTCOExpression; for assertion failures the hidden CMR reported by Rust is "
+                      "compared with the one of the semantics" % snotes["specified_in_coq"],
+        "generator": sstats}
+    lap("semantics_in_coq_s")
     cases.append(Case("classes", "classes", "60", "run_classes 60", {}))
     impl, model = vplib.eval_cases(rep, binary, "c06", cases, IMPORTS, tag="c06")
+    lap("evaluators_s")
+    rep.coverage["timing"] = T
     pf, _ = vplib.decide(rep, cases, impl, model, prop_check, finding_match, nontrivial,
                          what="Rust Bit Machine vs libsimplicity evaluator (and class tables vs Cdiff/VerdictRef.v)")
     envh = {}
@@ -211,7 +318,9 @@ def run(rep, tier, rng):
         "inferred types (one or two fillings), hidden branches / assertions, disconnect, words, DAG sharing) x (1-3 generated "
         "environments: 1-4 inputs and outputs, pegins, issuances / reissuances, explicit / confidential / null assets, values, "
         "nonces, annex absent / on the current input / on all inputs, lock times and sequences around the consensus thresholds, "
-        "taproot path of 0-3 nodes, script CMR = CMR of the program).  distinct = distinct (environment, program) line; "
+        "taproot path of 0-3 nodes, script CMR = CMR of the program); plus the three-way population (programs over the "
+        "specified Core jets only, disconnect templates with C and D of different widths and a checked result).  "
+        "distinct = distinct (environment, program) line; "
         "non-trivial = program with at least one jet, case, witness or disconnect that could be built")
     step = max(1, len(cases) // 5)
     rep.coverage["samples"] = [{"args": c.line[:300], "rust_kind": cc.EXEC_KIND.get((c.meta.get("parsed") or {}).get("rk")),
